@@ -42,7 +42,10 @@ impl Arbiter {
     pub fn spawn<Fut: Future<Output = ()> + Send + 'static>(&self, _f: Fut) -> bool { unimplemented!() }
 }
 #[derive(Clone, Debug)] pub struct System;
-impl System { pub fn try_current() -> Option<System> { None } pub fn stop(&self) {} }
+thread_local! { pub static SYSTEM_PRESENT: std::cell::Cell<bool> = const { std::cell::Cell::new(false) }; pub static SYSTEM_STOPS: std::cell::Cell<usize> = const { std::cell::Cell::new(0) }; }
+pub fn set_system_present(v: bool) { SYSTEM_PRESENT.with(|c| c.set(v)); SYSTEM_STOPS.with(|c| c.set(0)); }
+pub fn system_stops() -> usize { SYSTEM_STOPS.with(|c| c.get()) }
+impl System { pub fn try_current() -> Option<System> { if SYSTEM_PRESENT.with(|c| c.get()) { Some(System) } else { None } } pub fn stop(&self) { SYSTEM_STOPS.with(|c| c.set(c.get() + 1)); } }
 
 pub mod net {
     //! Opaque streams (an identifier), scripted TCP connects (actix-tls connector) and the `ActixStream` trait.
@@ -117,7 +120,14 @@ pub mod signal {
         #[derive(Clone, Copy, Debug)] pub struct SignalKind(pub u8);
         impl SignalKind { pub fn interrupt() -> Self { SignalKind(2) } pub fn terminate() -> Self { SignalKind(15) } pub fn quit() -> Self { SignalKind(3) } }
         #[derive(Debug)] pub struct Signal { pub kind: SignalKind, pub fired: bool }
-        impl Signal { pub fn poll_recv(&mut self, _: &mut Context<'_>) -> Poll<Option<()>> { if self.fired { self.fired = false; Poll::Ready(Some(())) } else { Poll::Pending } } }
+        thread_local! { pub static PENDING: std::cell::Cell<u8> = const { std::cell::Cell::new(0) }; }
+        /// scripted delivery: the signal number that the next poll of the matching stream reports (0 = none)
+        pub fn set_pending(sig: u8) { PENDING.with(|c| c.set(sig)); }
+        pub fn clear_pending() { PENDING.with(|c| c.set(0)); }
+        impl Signal { pub fn poll_recv(&mut self, _: &mut Context<'_>) -> Poll<Option<()>> {
+            if self.fired { self.fired = false; return Poll::Ready(Some(())); }
+            if PENDING.with(|c| c.get()) == self.kind.0 { clear_pending(); return Poll::Ready(Some(())); }
+            Poll::Pending } }
         pub fn signal(kind: SignalKind) -> io::Result<Signal> { Ok(Signal { kind, fired: false }) }
     }
 }
